@@ -17,9 +17,9 @@ sys.path.insert(0, os.path.join(VERIF, "sim"))
 
 # file -> checks that own it, the most likely killer first
 FILES = {
-    "src/lp/process.c": ["C03", "C05", "C06", "C01", "C20"],
+    "src/lp/process.c": ["C03", "C05", "C06", "C01", "C20", "C10"],
     "src/gvt/fossil.c": ["C13", "C03"],
-    "src/gvt/gvt.c": ["C04", "C08", "C02"],
+    "src/gvt/gvt.c": ["C04", "C08", "C02", "C20"],
     "src/gvt/termination.c": ["C07", "C08"],
     "src/datatypes/msg_queue.c": ["C15", "C01"],
     "src/mm/msg_allocator.c": ["C06", "C11"],
